@@ -42,13 +42,13 @@ CLAIMED = {
    "DESIGN.md §6 C05",
    "Lean kernel for the proved part; syntactic equality of pass outputs on generated rule sets; reference denotation as the meaning; hook H2.",
    "Lean 4 transcription of the passes validated by tree equality with the real passes + meaning-preservation theorems/search on the reference denotation"),
- "C12": ("other",
-   "Call counting is part of the proved ParserState model (C03) and of the lowered VM model; the property itself is swept on the implementation: every limit from 1 to 24/60 for random grammars x inputs, oracle = the unlimited result (needs no model); theorems limit_transparent / limit_monotone / no_refusal_simulates are stated over the model and being proved. Two genuine defects were found and fixed (absorbed refusal, PEEK/POP panic after the limit).",
+ "C12": ("proof",
+   "Call counting is part of the proved ParserState model (C03) and of the lowered VM model; the property itself is swept on the implementation: every limit from 1 to 24/60 for random grammars x inputs, oracle = the unlimited result (needs no model); kernel-checked theorems over the model for every call tree, input and limit: calls_monotone, reached_stays, no_refusal_simulates, limit_transparent (for completed runs; limit_transparent' unconditional up to model fuel/panic), limit_monotone. Two genuine defects were found and fixed (absorbed refusal, PEEK/POP panic after the limit).",
    "DESIGN.md §6 C12",
    "Sweep on the implementation with the unlimited result as oracle; Lean kernel for the proved part; model tied by V-line correspondence.",
    "limit sweep with unlimited-result oracle + Lean 4 simulation theorems over the ParserState model"),
- "C15": ("other",
-   "The detailed-attempts bookkeeping (try_add_new_token / try_add_new_stack_rule / nullify, splice and truncate indices as explicit panic outcomes) is part of the ParserState model; every generated parse is run with detail on and off on the implementation (oracle: identical outcomes, help message renders, max_position on a boundary) and the recorded ParseAttempts are compared with the model; theorems detail_erasure / detail_no_panic / attempts_monotone / maxpos_boundary are stated and being proved.",
+ "C15": ("proof",
+   "The detailed-attempts bookkeeping (try_add_new_token / try_add_new_stack_rule / nullify, splice and truncate indices as explicit panic outcomes) is part of the ParserState model; every generated parse is run with detail on and off on the implementation (oracle: identical outcomes, help message renders, max_position on a boundary) and the recorded ParseAttempts are compared with the model; kernel-checked theorems: detail_erasure_total (erasing the attempt information from the outcome of a detailed run gives exactly the outcome of the run with detail off — hence detail_erasure and detail_no_panic), splice_in_range, attempts_monotone, maxpos_boundary.",
    "DESIGN.md §6 C15",
    "On/off differential on the implementation; Lean kernel for the proved part; model tied by V-line correspondence incl. raw call stacks and token sets.",
    "detail on/off differential + Lean 4 erasure theorem over the ParserState model"),
